@@ -445,3 +445,9 @@ Theorem C01_results_doc_ordered_refuted :
      | _ => False
      end.
 Proof. vm_compute. repeat split. Qed.
+
+(* Every remaining statement of this file, so that none is left unaudited. *)
+Print Assumptions C01_descendant_search_first_only_refuted.
+Print Assumptions C01_required_null.
+Print Assumptions C01_optional_partial_existence_refuted.
+Print Assumptions C01_results_doc_ordered_refuted.
